@@ -159,6 +159,11 @@ let check_bb line f =
     let a = hx a and n = hx n in
     let (er, erest) = api_nth_spec a n in
     cmp_line "BN" line [("spec:nth", opt_n_str er, r); ("spec:nth-rest", hn erest, norm_hex rest)]
+  | ["BG"; a; b; c1; c2; c3] ->
+    let a = hx a and b = hx b in
+    cmp_line "BG" line [("spec:from_iter<BitBoard> of overlapping boards [a;b;a] = union", hn (api_from_boards [a; b; a]), norm_hex c1);
+                        ("spec:from_iter<BitBoard> of a repeated board [b;b] = b", hn (api_from_boards [b; b]), norm_hex c2);
+                        ("spec:from_iter<BitBoard> [a&b;a;b;a|b] = union", hn (api_from_boards [api_and a b; a; b; api_or a b]), norm_hex c3)]
   | ["BC"; kind; i; v; v2] ->
     let i = ni i in
     let e = match kind with "pos" -> api_from_pos i | "file" -> api_from_file i | "rank" -> api_from_rank i | _ -> N0 in
@@ -664,7 +669,7 @@ let dispatch line =
   match f with
   | "SC" :: _ -> check_sc line f
   | ("TB" | "TP" | "TG" | "TC" | "PW" | "MG" | "ZK") :: _ -> check_tables line f
-  | ("BU" | "BP" | "BF" | "BS" | "BB" | "BN" | "BC") :: _ -> check_bb line f
+  | ("BU" | "BP" | "BF" | "BS" | "BB" | "BG" | "BN" | "BC") :: _ -> check_bb line f
   | ("TX" | "TS" | "TM" | "PU" | "PS" | "PF" | "PD" | "PN" | "IT") :: _ -> check_text line f
   | ("AB" | "AS") :: _ -> check_abi line f
   | "TR" :: _ -> check_tr line f
